@@ -1470,3 +1470,64 @@ m('resolve-eval', ['C06'],
   (M, "        assert len(eta_sqr) == N\n        s_idx = list(reversed(np.argsort(eta_sqr)))",
    "        assert len(eta_sqr) == N\n        theta = eval(repr(theta))\n        s_idx = list(reversed(np.argsort(eta_sqr)))"),
   rule='R-resolve')
+
+# ---- round 5 rules ----------------------------------------------------------
+m('c16-vertex-early', ['C16'],
+  (IM, """        v0, v1, v2, v3 = element.vertices
+
+        # Bisect all edges.
+""", """        v0, v1, v2, v3 = element.vertices
+        vi = Vertex(x=(v0.x + v2.x) / 2,
+                    y=(v0.y + v2.y) / 2,
+                    idx=len(self.vertices))
+
+        # Bisect all edges.
+"""),
+  (IM, """        # Create interior vertex.
+        vi = Vertex(x=(v0.x + v2.x) / 2,
+                    y=(v0.y + v2.y) / 2,
+                    idx=len(self.vertices))
+        self.vertices.append(vi)""", "        self.vertices.append(vi)"),
+  rule='R-quad-children')
+m('c16-bounded-descent', ['C16'],
+  (IM, """        children = self.leaf_elements
+        while True:""", """        children = self.leaf_elements
+        for _ in range(12):"""), rule='R-contain')
+m('c18-no-exact-closure', ['C18'],
+  (P, """        if closed:
+            assert (np.all(vertices[0] == vertices[-1]))
+""", ""), rule='R-pieces')
+m('c18-closure-allclose', ['C18'],
+  (P, "            assert (np.all(vertices[0] == vertices[-1]))",
+   "            assert np.allclose(vertices[0], vertices[-1])"),
+  rule='R-pieces')
+m('c07-wrap-parameter', ['C07'],
+  (SL, "        x = self.mesh.gamma_space.eval(x_hat)\n        for j, elem_trial in enumerate(elems):",
+   "        x_hat = x_hat % self.gamma_len\n        x = self.mesh.gamma_space.eval(x_hat)\n        for j, elem_trial in enumerate(elems):"),
+  rule='R-passthrough')
+m('c07-vector-shifted-index', ['C07'],
+  (SL, "            vec[j] = self.evaluate(elem_trial, t, x_hat, x)",
+   "            vec[j - 1] = self.evaluate(elem_trial, t, x_hat, x)"),
+  rule='R-passthrough')
+m('c19-counted-sweeps', ['C19'],
+  (M, "        while marked_space or marked_time:",
+   "        for _ in range(64):\n            if not (marked_space or marked_time):\n                break"),
+  rule='R-window')
+t('twin-c07-vector-temp', ['C07'],
+  (SL, "        x = self.mesh.gamma_space.eval(x_hat)\n        for j, elem_trial in enumerate(elems):\n            vec[j] = self.evaluate(elem_trial, t, x_hat, x)",
+   "        gamma = self.mesh.gamma_space\n        pt = gamma.eval(x_hat)\n        for j, elem_trial in enumerate(elems):\n            vec[j] = self.evaluate(elem_trial, t, x_hat, pt)"))
+t('twin-c06-sorted-header', ['C06', 'C02'],
+  (M, """        marked.sort(key=lambda elem: elem.level_time)
+        children_time = []
+        for elem in marked:
+            assert not elem.children""", """        children_time = []
+        for elem in sorted(marked, key=lambda elem: elem.level_time):
+            assert not elem.children"""))
+t('twin-c18-closure-array-equal', ['C18'],
+  (P, "            assert (np.all(vertices[0] == vertices[-1]))",
+   "            assert np.array_equal(vertices[0], vertices[-1])"))
+t('twin-c16-vertex-temp', ['C16'],
+  (IM, """                    idx=len(self.vertices))
+        self.vertices.append(vi)""", """                    idx=len(self.vertices))
+        centre = (vi.x, vi.y)
+        self.vertices.append(vi)"""))
